@@ -851,7 +851,12 @@ func Unzip(dir string, m module.Version, zipFile string) (err error) {
 
 	// Check that the directory is empty. Don't create it yet in case there's
 	// an error reading the zip.
-	if files, _ := os.ReadDir(dir); len(files) > 0 {
+	files, err := os.ReadDir(dir)
+	if err != nil && !os.IsNotExist(err) {
+		// The directory exists but cannot be listed: it cannot be shown to be empty.
+		return err
+	}
+	if len(files) > 0 {
 		return fmt.Errorf("target directory %v exists and is not empty", dir)
 	}
 
